@@ -406,6 +406,70 @@ theorem history_pin_final (I : Inst) (r : Result) (h : transcribeBounds I = some
   rw [hfr3.1, hfr3.2.1, hfr2.1, hfr2.2]
   exact heff
 
+
+/-- **Shared control entries: the last member with a value wins.**  With the default control
+    discretisation the entries of a control are shared by all ensemble members, while histories
+    are per member.  `transcribe()` sweeps the members in order, so in the returned vectors the
+    first entry of control `k` holds `lbx = ubx =` the history value at `t0` (over the nominal) of
+    the **last** member, in member order, that has a non-NaN value — whatever the bounds and the
+    earlier members' histories are.  (This is what the code does; it is stated as the behaviour,
+    not as a defect: members that share a control but disagree about its value at `t0` cannot all
+    be honoured.) -/
+theorem shared_control_pin_last_member_wins (I : Inst) (r : Result) (h : transcribeBounds I = some r)
+    (hne : NonEmpty I) (m k : Nat) (hm : m < I.E)
+    (hk : ¬ k < I.states.length + I.algs.length) (hl : k < (pinVars I).length)
+    (v : XVal) (hv : memberPin I m k = some (some v))
+    (hlast : ∀ m', m < m' → m' < I.E → memberPin I m' k = some none) :
+    r.lbx[pinIndex I m k]? = some v ∧ r.ubx[pinIndex I m k]? = some v := by
+  obtain ⟨noms, lo, hi, hlo, hhi, hpm, _⟩ := transcribe_unfold I r h
+  have hE : 0 < I.E := by omega
+  have hll := boxArr_length true I lo hE hlo
+  have hlh := boxArr_length false I hi hE hhi
+  obtain ⟨la, ha, lb, hb, lc, hc, sa, sc, e1, e2, e3, e4, e5⟩ :=
+    pinMembers_split I noms I.E 0 lo hi r.lbx r.ubx [] r.symbolic hpm m (Nat.zero_le _) (by omega)
+  -- member m's own entry of the zipped list
+  obtain ⟨b, hh, hkk, hpv⟩ : ∃ b hh,
+      ((pinVars I).zip (histOf I m ++ List.replicate (pinVars I).length none))[k]? = some (b, hh) ∧
+      pinValue I.t0 b hh = some (some v) := by
+    unfold memberPin at hv
+    cases hz : ((pinVars I).zip (histOf I m ++ List.replicate (pinVars I).length none))[k]? with
+    | none => simp [hz] at hv
+    | some x => obtain ⟨b, hh⟩ := x; exact ⟨b, hh, rfl, by simpa [hz] using hv⟩
+  have hlt : pinIndex I m k < totalSize I := by
+    have := pinIndex_ctrl_lt I hne m k hk hl
+    unfold totalSize; omega
+  have hzl : ((pinVars I).zip (histOf I m ++ List.replicate (pinVars I).length none)).length
+      = (pinVars I).length := zip_pad_length _ _
+  have heff := history_pins_override I m _ la ha lb hb e3 k b hh hkk v hpv
+    (by rw [e1, e2, hll, hlh]; exact ⟨hlt, hlt⟩)
+    (by
+      intro k' h1 h2
+      rw [hzl] at h2
+      exact pinIndex_ctrl_ne I hne m m k k' hk (by omega) h1 h2)
+  have hfr2 := applyDerPins_frame I m noms _ 0 lb hb lc hc sa sc e4 (pinIndex I m k) (by
+    intro i hi
+    rw [zip_pad_length] at hi
+    simp only [Nat.zero_add]
+    rw [derIndex_eq]
+    exact pinIndex_ctrl_ne_slot I hne m m k _ hk hl)
+  have hfr3 := pinMembers_frame_nowrite I noms _ (m + 1) lc hc r.lbx r.ubx sc r.symbolic e5 (pinIndex I m k) (by
+    intro m' h1 h2
+    exact ctrl_nowrite I hne m m' k hk hl (hlast m' (by omega) (by omega)))
+  rw [hfr3.1, hfr3.2, hfr2.1, hfr2.2]
+  exact heff
+
+/-- ... and if no member has a value for the control, its first entry keeps the user's box -/
+theorem shared_control_no_value_keeps_box (I : Inst) (r : Result) (h : transcribeBounds I = some r)
+    (hne : NonEmpty I) (k : Nat) (hk : ¬ k < I.states.length + I.algs.length) (hl : k < (pinVars I).length)
+    (hnone : ∀ m', m' < I.E → memberPin I m' k = some none) :
+    ∃ lo hi, boxArr true I = some lo ∧ boxArr false I = some hi ∧
+      r.lbx[pinIndex I 0 k]? = lo[pinIndex I 0 k]? ∧ r.ubx[pinIndex I 0 k]? = hi[pinIndex I 0 k]? := by
+  obtain ⟨noms, lo, hi, hlo, hhi, hpm, _⟩ := transcribe_unfold I r h
+  have := pinMembers_frame_nowrite I noms I.E 0 lo hi r.lbx r.ubx [] r.symbolic hpm (pinIndex I 0 k) (by
+    intro m' _ h2
+    exact ctrl_nowrite I hne 0 m' k hk hl (hnone m' (by omega)))
+  exact ⟨lo, hi, hlo, hhi, this.1, this.2⟩
+
 /-- **Entries that no pin addresses keep the user's box in the returned vectors**: every entry
     other than the first entry of a state / algebraic state / control and the initial-derivative
     entries is exactly what `box_is_users_box` describes. -/
@@ -624,6 +688,30 @@ example : stateIndex exI 1 1 1 2 = 29 ∧
 example : (transcribeBounds exI).map (fun r => [r.lbx[3]?, r.ubx[3]?, r.lbx[18]?, r.ubx[18]?, r.lbx[0]?, r.ubx[0]?])
     = some [some (XVal.fin (1/5)), some (XVal.fin (1/5)), some (XVal.fin (1/10)), some (XVal.fin (1/10)),
             some (XVal.fin (1/4)), some (XVal.fin (1/4))] := by decide +kernel
+
+
+-- shared control, two members with different histories: member 0 says u(t0) = 3, member 1 says 1/2;
+-- the returned vectors hold member 1's value (1/2)/2 = 1/4; with member 1's value NaN, member 0's 3/2
+def exShared (v1 : Option Rat) : Inst :=
+  { exI with hist := [[none, some (histEndingAt [] [] 0 (some 3))],
+                      [none, some (histEndingAt [-1] [some 7] 0 v1)]] }
+
+example : memberPin (exShared (some (1/2))) 0 1 = some (some (XVal.fin (3/2))) ∧
+    memberPin (exShared (some (1/2))) 1 1 = some (some (XVal.fin (1/4))) ∧
+    (transcribeBounds (exShared (some (1/2)))).map (fun r => [r.lbx[0]?, r.ubx[0]?])
+      = some [some (XVal.fin (1/4)), some (XVal.fin (1/4))] ∧
+    memberPin (exShared none) 1 1 = some none ∧
+    (transcribeBounds (exShared none)).map (fun r => [r.lbx[0]?, r.ubx[0]?])
+      = some [some (XVal.fin (3/2)), some (XVal.fin (3/2))] := by decide +kernel
+
+example : NonEmpty (exShared none) := by
+  constructor
+  · intro b hb
+    simp [stateBlocks, exShared, exI, initDerBlk] at hb
+    rcases hb with rfl | rfl | rfl | rfl <;> simp [Blk.len, Blk.n]
+  · intro b hb
+    simp [exShared, exI] at hb
+    subst hb; simp [Blk.len, Blk.n]
 
 -- F11 as it was (time-major ravel) would have put 100 at component 0, stamp 1; the model has 2:
 def exF11 : Inst :=
